@@ -1,6 +1,8 @@
 package x25519
 
 import (
+	"strings"
+	"io/ioutil"
 	"bytes"
 	"crypto/ecdh"
 	"crypto/sha512"
@@ -134,6 +136,44 @@ func jobC11(c *rt.Ctx) {
 				c.Violation("C11 append-to-exported-slice", fmt.Sprintf("after the caller appended to the exported Basepoint slice (len %d, cap %d): X25519(s, 9) = %x, %v (RFC: %x); X25519(s, 1) = %x, %v; X25519(s, 0) = %x, %v (low-order points must be refused)", len(Basepoint), cap(Basepoint), outA, errA, wantA, outL, errL, outZ, errZ),
 					map[string]interface{}{"cap_basepoint": cap(Basepoint), "appended": ref.Hex(wantA)})
 			}
+		}
+	}
+	// argument lengths that are 32 modulo a power of two: 2^8 + 32, 2^16 + 32, 2^24 + 32, 2^31 + 32 and
+	// (where int has 64 bits) 2^32 + 32 bytes - "not 32 bytes long" is decided on the whole length, not
+	// on a length that went through a narrower integer type. The slices are allocated and left untouched.
+	c.Require("length-truncation")
+	if c.Take() {
+		c.Class("length-truncation")
+		c.Distinct("length-truncation", true)
+		hs := sha512.Sum512([]byte("c11-long-args"))
+		shifts := []uint{8, 16, 24}
+		if ^uint(0)>>63 == 1 && memAvailableGiB() >= 12 {
+			// (a slice of 2 or 4 GiB: only where int has 64 bits and the machine has the memory to spare,
+			// should the runtime decide to clear it)
+			shifts = append(shifts, 31, 32)
+			c.Class("length-truncation/4GiB")
+		}
+		for _, sh := range shifts {
+			n := int(uint64(1)<<sh) + 32
+			long := make([]byte, n)
+			copy(long, hs[:32])
+			for which := 0; which < 3; which++ {
+				sc, pt := hs[:32], nine
+				switch which {
+				case 0:
+					sc = long
+				case 1:
+					pt = long
+				default:
+					sc, pt = long, Basepoint
+				}
+				out, err := X25519(sc, pt)
+				c.Step(1)
+				if err == nil || out != nil {
+					c.Violation("C11 length-truncation", fmt.Sprintf("X25519 with an argument of 2^%d + 32 bytes (argument %d) returned %x, err=%v; an argument that is not 32 bytes long must be refused", sh, which, out, err), map[string]interface{}{"shift": sh, "which": which})
+				}
+			}
+			long = nil
 		}
 	}
 	// caller buffers refilled between calls: one scalar buffer and one point buffer, on the base-point
@@ -918,6 +958,35 @@ func sparseCheckStrings() [][]byte {
 			}
 		}
 	}
+	// values whose 64-bit (32-bit) words ADD UP to a multiple of 2^64 (2^32): w in one word and 2^W - w in
+	// another (they cancel when a zero test folds the words with + instead of |), for three unstructured w
+	for _, W := range []uint{64, 32} {
+		nw := int(256 / W)
+		for a := 0; a < nw; a++ {
+			for b := 0; b < nw; b++ {
+				if a == b || (W == 32 && (a+b)%3 != 0) {
+					continue
+				}
+				for _, f := range factors {
+					for _, w0 := range []int64{0x0102030405, 1, 0x7f3c1d5b} {
+						done := false
+						for dw := int64(0); dw < 64 && !done; dw++ {
+							w := big.NewInt(w0 + dw)
+							if W == 32 {
+								w.And(w, big.NewInt(0xffffffff))
+							}
+							cval := new(big.Int).Lsh(w, W*uint(a))
+							cval.Add(cval, new(big.Int).Lsh(new(big.Int).Sub(new(big.Int).Lsh(big.NewInt(1), W), w), W*uint(b)))
+							if cval.BitLen() > 255 {
+								break
+							}
+							done = try(cval, f)
+						}
+					}
+				}
+			}
+		}
+	}
 	return out
 }
 
@@ -1096,4 +1165,20 @@ func atAlign(b []byte) []byte {
 	}
 	copy(buf[off:], b)
 	return buf[off : off+len(b)]
+}
+
+// memAvailableGiB reads MemAvailable from /proc/meminfo (0 if unknown).
+func memAvailableGiB() int {
+	b, err := ioutil.ReadFile("/proc/meminfo")
+	if err != nil {
+		return 0
+	}
+	for _, ln := range strings.Split(string(b), "\n") {
+		if strings.HasPrefix(ln, "MemAvailable:") {
+			var kb int
+			fmt.Sscanf(strings.TrimSpace(strings.TrimPrefix(ln, "MemAvailable:")), "%d", &kb)
+			return kb >> 20
+		}
+	}
+	return 0
 }
